@@ -14,16 +14,16 @@ import (
 // blocks with every Remember subset, Verify(remember=true), Ingest and Prune of arbitrary
 // sets, Undo, and replacement by NewMapPollardFromRoots, for one TotalRows setting.
 type PartialFamily struct {
-	Nmax      int
-	TR        uint8
-	UndoBud   int
-	FRBud     int    // "fromroots" transitions (instance replaced by NewMapPollardFromRoots)
-	Junk      bool   // also Verify(remember) with one trailing unused proof hash
-	NoIngest  bool
-	Prop      string
-	RemMode   string // "" every subset | "all" | "none"
-	SetLimit  int    // max size of verify/ingest/prune sets (0 = unlimited)
-	Collect   string // when set, violations of this property are collected instead of Prop's
+	Nmax     int
+	TR       uint8
+	UndoBud  int
+	FRBud    int  // "fromroots" transitions (instance replaced by NewMapPollardFromRoots)
+	Junk     bool // also Verify(remember) with one trailing unused proof hash
+	NoIngest bool
+	Prop     string
+	RemMode  string // "" every subset | "all" | "none"
+	SetLimit int    // max size of verify/ingest/prune sets (0 = unlimited)
+	Collect  string // when set, violations of this property are collected instead of Prop's
 }
 
 type partFrame struct {
